@@ -68,7 +68,7 @@ type caseIn struct {
 }
 
 type caseOut struct {
-	Variant   [4]int      `json:"variant"` // guard, refresh_idx, hb, ptr (probed on the real code)
+	Variant   [5]int      `json:"variant"` // guard, refresh_idx, hb, ptr, cas (probed on the real code)
 	Obs       [][][][3]int `json:"obs"`     // per op, per node, per client: kind(0 absent,1 found,2 error), node, conn
 	Errs      []int       `json:"errs"`    // per op: the call returned an error
 	TaintedAt int         `json:"tainted_at"`
@@ -550,7 +550,7 @@ func (g *ghost) check(o []int, now int, clients []int, ans [][][3]int, msgs [][]
 // ---------------------------------------------------------------------------------------------
 // one history
 // ---------------------------------------------------------------------------------------------
-var variant [4]int
+var variant [5]int
 
 func runCase(raw json.RawMessage) interface{} {
 	var c caseIn
@@ -640,8 +640,8 @@ func runCase(raw json.RawMessage) interface{} {
 // ---------------------------------------------------------------------------------------------
 // which of the three repairs does the tree under test contain?  (probed on the real code, no clock involved)
 // ---------------------------------------------------------------------------------------------
-func probeVariant() [4]int {
-	var v [4]int
+func probeVariant() [5]int {
+	var v [5]int
 	ttl := 300 * time.Millisecond
 	// ptr: memory backend hands back the stored *Info
 	{
@@ -688,6 +688,23 @@ func probeVariant() [4]int {
 		w.close()
 	}
 	return v
+}
+
+// cas: is the index test-and-write of UnregisterConnection / RefreshConnection one atomic storage call?  Probed by replaying
+// the two window schedules through the gated double, per backend (a tiered storage may lack CompareAndSwap): the new registration must survive both.
+var casByBackend = map[string]int{}
+
+func probeCAS(backend string) int {
+	old := [][]int{{opSReg, 1, 1, 7, 1}}
+	a := runConc(concIn{Backend: backend, Nodes: 2, Clients: []int{7}, Setup: old,
+		Threads: [][]int{{thUnreg, 1, 1}, {thReg, 2, 2, 7, 1}}, Sched: []int{0, 0, 1, 1, 0, 0}})
+	b := runConc(concIn{Backend: backend, Nodes: 2, Clients: []int{7}, Setup: old,
+		Threads: [][]int{{thRefresh, 1, 1}, {thReg, 2, 2, 7, 1}}, Sched: []int{0, 0, 0, 1, 1, 0}})
+	ok := func(o *concOut) bool { return len(o.Final) > 0 && o.Final[0][0] == [3]int{1, 2, 2} }
+	if ok(a) && ok(b) {
+		return 1
+	}
+	return 0
 }
 
 // ---------------------------------------------------------------------------------------------
@@ -820,6 +837,10 @@ func main() {
 		return
 	}
 	variant = probeVariant()
+	for _, be := range []string{"memory", "redis", "hybrid-redis", "hybrid-shared-mem", "hybrid-mem"} {
+		casByBackend[be] = probeCAS(be)
+	}
+	variant[4] = casByBackend["memory"]
 	for k := 0; k < nShapes; k++ {
 		shapeIsControl[k] = probeShape(k).control
 	}
